@@ -781,6 +781,13 @@ def explore(ctx):
                 if h not in seen:
                     seen.add(h)
                     gui.append(cc)
+    # opacities that are not zero themselves but whose ratio to the infrared opacity underflows to exactly zero (the
+    # closed form divides by the ratio): rejected like a zero opacity
+    base = dict((k, v[0]) for k, v in G_DIMS.items())
+    for kv, kir in (('kappa_v1', 1e10), ('kappa_v2', 1e12), ('kappa_v1', 1e300), ('kappa_v2', 1e300)):
+        for via in G_DIMS['via']:
+            for N in (5, 2):
+                gui.append(dict(base, **{kv: 1e-315 if kir < 1e300 else 1e-30, 'kappa_irr': kir, 'via': via, 'N': N}))
     ctx.run_cases('guillot_case', gui, phase='guillot')
 
     ctx.bounds.update(layer_counts=ns, grids=grids, npoint_cases=len(npc), window_layer_counts='2..%d' % nmax,
